@@ -152,6 +152,17 @@ CHECKS = {
         "position must succeed, keep parameters/adaptations and make a replay indistinguishable from a fresh layer.",
         "in-size 2 components; histories ride the batch dimension (relies on nothing that C11 does not check separately)",
     ),
+    "C11": (
+        "exploration", "DESIGN.md §3 C11",
+        "self-composition: all tuples of per-sample input histories run batched and compared per sample with batch-size-1 runs of "
+        "identically parameterised copies (2-safety checked by exhaustive enumeration of the history tuples)",
+        "For 8 neuron classes (adaptation frozen), 4 synapses (delay 0 and 2dt), 4 connections x 2 synapses x delayed/undelayed, and "
+        "Serial/Biclique/RecurrentSerial layers, every pair of histories (27 or 81 histories over a 3-letter alphabet) for B=2 and every "
+        "pair plus a permuted third sample for B=3 is run; every output, state variable, delayed view and logical record content of "
+        "sample b must equal the single-sample run at every step. Adaptations are checked to equal the configured batch reduction "
+        "(mean/amax/sum) of per-sample adaptations.",
+        "float observables compared at 1e-6; alphabet of 3 letters; the trainer sum-reduction clause is covered by C08",
+    ),
 }
 
 PENDING_REASON = "check not built yet in this session (claimed in DESIGN.md; will move to checks when its exploration exists)"
